@@ -196,6 +196,10 @@ def run_matrix(ctx, rng, classes, per_class):
                         one_case(ctx, pair, root, box, raised, snd, rcv)
                         if ctx.enough():
                             return
+                # an exception whose arguments the serializer cannot encode: the requester gets the encoding error instead (C08);
+                # what is disclosed with it must still follow the sender's switches
+                for big in (ValueError(10 ** (sys.get_int_max_str_digits() + 10), "x"), KeyError(("k", 10 ** (sys.get_int_max_str_digits() + 10)))):
+                    one_case(ctx, pair, root, box, big, snd, rcv, custom="unencodable")
                 # custom classes
                 for kind in ("imported", "imported_base", "unknown"):
                     for args in [(), ("m", 2), ([1], gen.Obj(1))]:
@@ -220,9 +224,13 @@ def one_case(ctx, pair, root, box, raised, snd, rcv, custom=None):
     import rpyc
     from rpyc.core import vinegar
     cls = type(raised)
-    wit = dict(cls=cls.__name__, args=repr(raised.args)[:200], sender=snd, receiver=rcv, custom=custom)
+    try:
+        args_text = repr(raised.args)[:200]
+    except Exception:
+        args_text = "<%d arguments, not printable>" % len(raised.args)
+    wit = dict(cls=cls.__name__, args=args_text, sender=snd, receiver=rcv, custom=custom)
     desc = (cls.__name__, argshape(raised.args), tuple(sorted(snd.items())), tuple(sorted(rcv.items())), custom)
-    ctx.case(desc, nontrivial=bool(raised.args) or bool(plain_public_attrs(raised)))
+    ctx.case(desc, nontrivial=bool(raised.args) or custom == "unencodable" or bool(plain_public_attrs(raised)))
     box["exc"] = raised
     try:
         import traceback
@@ -257,6 +265,13 @@ def one_case(ctx, pair, root, box, raised, snd, rcv, custom=None):
     ctx.count("exceptions_received")
     if len(INIT_LOG) != n_init:
         ctx.violation("C09/constructor-ran", "rebuilding the exception ran __init__ of %r" % (INIT_LOG[n_init:],), wit)
+    if custom == "unencodable":
+        ctx.count("unencodable_exception_records")
+        if isinstance(e, (EOFError, TimeoutError)):
+            ctx.violation("C09/unencodable/connection-lost", "an exception that cannot be encoded ended the connection (%s)" % type(e).__name__, wit)
+            return
+        judge_disclosure(ctx, e, snd, frame_rec, dict(wit, formattable=True))
+        return
     if custom is None:
         if cls.__module__ != "builtins":
             return
